@@ -59,7 +59,7 @@ pub fn check(v: &View, vd: &mut Verdict) {
                         // the next message is taken at the very instant of the abandonment
                         // (only if it was already queued then)
                         let queued_then = match &next.msg {
-                            MsgRef::Client(nid) => v.client_ops().find(|o| o.msg == Some(*nid)).is_some_and(|o| o.begin_time < i.enter_time + t as u64),
+                            MsgRef::Client(nid) => v.client_ops().find(|o| o.msg == Some(*nid) && matches!(o.what, OpWhat::Send | OpWhat::Call)).is_some_and(|o| o.begin_time < i.enter_time + t as u64),
                             _ => false,
                         };
                         if queued_then && next.enter_time != i.enter_time + t as u64 {
